@@ -1494,6 +1494,8 @@ def call_native(it, f, args, kwargs):
             raise Unsupported("container mutation %s under a symbolic guard" % f.__name__)
         args = [dict(zip(a.keys, a.vals)) if isinstance(a, IDict) else (list(a._items) if isinstance(a, ISet) else a) for a in args]
         return f(*args, **kwargs)
+    if isinstance(f, type) and __import__("dataclasses").is_dataclass(f):
+        return f(*args, **kwargs)       # generated __init__ only stores its arguments
     if deep_sym(list(args)) or deep_sym(kwargs):
         if isinstance(f, type) and issubclass(f, BaseException):
             return f(*["<sym>" if deep_sym(a) else a for a in args])
